@@ -81,6 +81,17 @@ NOISE_REP = 16          # number of noise realisations the derank / svd noise st
 
 _seed = st.integers(0, 2 ** 32 - 1)
 
+# Dimensions shared by every sub-property (see "Dimensions every generator needs" in tools/CHECK_AUTHOR_GUIDE.md). Cases
+# written before these fields existed (corpus, enumerations) lack them: every read goes through case.get(..., default).
+LAY2 = ["C", "C", "C", "F", "strided", "neg", "ro"]        # memory layout of a 2-D array argument
+LAY1 = ["C", "C", "C", "strided", "neg", "ro"]             # memory layout of a 1-D array argument
+REP = [0, 0, 0, 0, 1, 2]      # 0: one call; 1: second call with the SAME argument objects; 2: a call with other
+#                               arguments of the same shape in between (a cache filled by somebody else), then again
+REP_SLOW = [0, 0, 0, 0, 0, 0, 1, 2]                       # for the sub-properties that cost ~0.3 s per call
+
+
+XY_KINDS = ["f8", "f8", "f8", "f4", "int", "list", "ro", "strided", "neg"]   # how the trace coordinates are handed over
+
 
 def _st_layout(draw, allow_stagger):
     nx = draw(st.integers(1, 4))
@@ -111,6 +122,12 @@ def _st_cadzow(draw):
     c["imax"] = draw(st.one_of(st.none(), st.none(), st.integers(1, 12)))
     c["scale"] = draw(st.sampled_from([1.0, 1e-6, 1e4]))
     c["seed"] = draw(_seed)
+    c["wlayout"] = draw(st.sampled_from(LAY2))
+    c["cdtype"] = draw(st.sampled_from(["c16", "c16", "c8"]))
+    c["xy"] = draw(st.sampled_from(XY_KINDS))
+    c["kwform"] = draw(st.sampled_from(["kw", "omit", "pos"]))
+    c["rtype"] = draw(st.sampled_from(["int", "int", "np"]))
+    c["rep"] = draw(st.sampled_from(REP_SLOW))
     return c
 
 
@@ -118,6 +135,8 @@ def _st_cadzow(draw):
 def _st_traj(draw):
     c = {"fn": "traj", **_st_layout(draw, allow_stagger=False)}
     c["seed"] = draw(_seed)
+    c["xy"] = draw(st.sampled_from(XY_KINDS))
+    c["rep"] = draw(st.sampled_from(REP_SLOW))
     return c
 
 
@@ -129,7 +148,9 @@ def _st_derank(draw):
     k = draw(st.one_of(st.integers(1, full), st.integers(1, max(1, full // 4))))
     return {"fn": "derank", "m": m, "n": n, "k": k, "r_off": draw(st.sampled_from([0, 0, 1, 3, 40])),
             "complex": draw(st.booleans()), "sig_exp": draw(st.integers(-20, 5)),
-            "scale": draw(st.sampled_from([1.0, 1e-6, 1e4])), "seed": draw(_seed)}
+            "scale": draw(st.sampled_from([1.0, 1e-6, 1e4])), "seed": draw(_seed),
+            "layout": draw(st.sampled_from(LAY2)), "single": draw(st.integers(0, 3)) == 0,
+            "rtype": draw(st.sampled_from(["int", "int", "np"])), "rep": draw(st.sampled_from(REP))}
 
 
 @st.composite
@@ -138,10 +159,13 @@ def _st_svd(draw):
     ns = draw(st.one_of(st.integers(1, 96), st.integers(48, 160)))
     mode = draw(st.sampled_from(["full", "full", "lowrank", "lowrank", "lowrank"]))
     c = {"fn": "svd", "nc": nc, "ns": ns, "mode": mode, "dtype": draw(st.sampled_from(["f8", "f8", "f4"])),
-         "scale": draw(st.sampled_from([1.0, 1e-6, 1e4])), "seed": draw(_seed)}
+         "scale": draw(st.sampled_from([1.0, 1e-6, 1e4])), "seed": draw(_seed),
+         "layout": draw(st.sampled_from(LAY2)), "rep": draw(st.sampled_from(REP)),
+         "rank_form": draw(st.sampled_from(["kw", "kw", "pos", "np", "default"]))}
     if mode == "full":
         c["ncoll"] = draw(st.integers(0, min(4, nc)))
         c["coll_labels"] = draw(st.sampled_from(["range", "arbitrary"]))
+        c["coll_kind"] = draw(st.sampled_from(["i8", "i8", "ro", "strided", "i4", "f8"]))
     else:
         full = min(nc, ns)
         c["k"] = draw(st.one_of(st.integers(1, full), st.integers(1, max(1, full // 4))))
@@ -162,7 +186,10 @@ def _st_lp(draw):
     f0 = draw(st.floats(0.01, 0.9))
     return {"fn": "lp", "n": draw(st.one_of(st.integers(1, 64), st.integers(1, 2000))),
             "pad": draw(st.one_of(st.sampled_from([0.2, 0.01, 0.5, 1.0]), st.floats(0.001, 1.0))),
-            "f0": f0, "f1": f0 + draw(st.floats(0.01, 0.6)), "c": draw(_consts), "seed": draw(_seed)}
+            "f0": f0, "f1": f0 + draw(st.floats(0.01, 0.6)), "c": draw(_consts), "seed": draw(_seed),
+            "layout": draw(st.sampled_from(LAY1)), "dtype": draw(st.sampled_from(["f8", "f8", "f4"])),
+            "fac_form": draw(st.sampled_from(["list", "list", "tuple", "array", "array_ro"])),
+            "pad_form": draw(st.sampled_from(["kw", "kw", "pos", "default"])), "rep": draw(st.sampled_from(REP))}
 
 
 @st.composite
@@ -170,7 +197,13 @@ def _st_rolling(draw):
     wl = draw(st.one_of(st.integers(1, 25).map(lambda i: 2 * i + 1), st.just(1)))
     return {"fn": "rolling", "wl": wl, "n": wl + draw(st.one_of(st.integers(0, 3), st.integers(0, 300))),
             "window": draw(st.sampled_from(WINDOWS)), "c": draw(_consts), "as_list": draw(st.booleans()),
-            "seed": draw(_seed)}
+            "seed": draw(_seed),
+            "layout": draw(st.sampled_from(LAY1)), "dtype": draw(st.sampled_from(["f8", "f8", "f4"])),
+            "form": draw(st.sampled_from(["kw", "kw", "pos", "default_window", "default_all"])),
+            "rep": draw(st.sampled_from(REP))}
+
+
+VEC_KINDS = ["array", "array", "array", "list", "f4", "ro", "strided", "neg"]   # how a 1-D float vector is handed over
 
 
 @st.composite
@@ -180,7 +213,9 @@ def _st_savgol(draw):
     extra = 0 if draw(st.sampled_from(range(16))) == 7 else draw(st.one_of(st.integers(1, 60), st.integers(1, 3)))
     return {"fn": "savgol", "w": w, "o": o, "d": draw(st.integers(0, o)), "n": w + extra,
             "spacing": draw(st.sampled_from(["uniform", "random", "random", "cluster", "gaps"])),
-            "x0": draw(st.sampled_from([0.0, 1000.0, -50.0, 1e6])), "seed": draw(_seed)}
+            "x0": draw(st.sampled_from([0.0, 1000.0, -50.0, 1e6])), "seed": draw(_seed),
+            "kind": draw(st.sampled_from(VEC_KINDS)), "form": draw(st.sampled_from(["pos", "pos", "kw"])),
+            "rep": draw(st.sampled_from(REP))}
 
 
 @st.composite
@@ -193,7 +228,10 @@ def _st_interp(draw):
             "n_nan": 0 if nan_mode == "none" else draw(st.integers(1, 40)), "nan_mode": nan_mode,
             "kind": draw(st.sampled_from(["cubic", "cubic", "linear", "quadratic"])),
             "const": draw(_consts) if draw(st.sampled_from([False, False, True])) else None, "default_args": draw(st.integers(0, 5)) == 0,
-            "seed": draw(_seed)}
+            "seed": draw(_seed),
+            "sig_kind": draw(st.sampled_from(VEC_KINDS)),
+            "form": draw(st.sampled_from(["kw", "kw", "pos", "window_only", "no_kind"])),
+            "rep": draw(st.sampled_from(REP))}
 
 
 @st.composite
@@ -213,7 +251,12 @@ def _st_venn(draw):
          "mult_a": draw(st.integers(lo, max(lo, ntb + 2))), "mult_b": draw(st.integers(lo, max(lo, ntb + 2))),
          "chunk_any": draw(st.integers(lo * tb, max(lo * tb, (ntb + 2) * tb))),
          "default_channels": draw(st.integers(0, 5)) == 0,
-         "seed": draw(_seed)}
+         "seed": draw(_seed),
+         "sdtype": draw(st.sampled_from(["i8", "i8", "u8", "i4", "u4", "f8"])),
+         "cdtype": draw(st.sampled_from(["i8", "i8", "i4", "u2", "f8"])),
+         "arr": draw(st.sampled_from(["C", "C", "ro", "strided"])),
+         "reuse": draw(st.sampled_from([True, True, False])),
+         "default_chunk": draw(st.booleans()), "fs_form": draw(st.sampled_from(["kw", "omit"]))}
     return c
 
 
@@ -224,7 +267,11 @@ def _st_stack(draw):
             "labels": draw(st.sampled_from(["range", "arbitrary", "negative", "float"])),
             "agg": draw(st.sampled_from(["default", "nanmean", "mean", "sum", "median", "nanmedian", "max"])),
             "dtype": draw(st.sampled_from(["f8", "f8", "f4", "i4"])), "nans": draw(st.booleans()),
-            "nheader": draw(st.integers(0, 3)), "equal_fold": draw(st.integers(0, 4)) == 0, "seed": draw(_seed)}
+            "nheader": draw(st.integers(0, 3)), "equal_fold": draw(st.integers(0, 4)) == 0, "seed": draw(_seed),
+            "layout": draw(st.sampled_from(LAY2)),
+            "word_kind": draw(st.sampled_from(["array", "array", "list", "ro", "strided", "small_int", "unsigned"])),
+            "hdr_kind": draw(st.sampled_from(["array", "array", "list", "ro", "int"])),
+            "form": draw(st.sampled_from(["kw", "kw", "pos"])), "rep": draw(st.sampled_from(REP))}
 
 
 _STRATS = {"cadzow": _st_cadzow, "traj": _st_traj, "derank": _st_derank, "svd": _st_svd, "lp": _st_lp,
@@ -358,8 +405,97 @@ def _is_array(a, shape):
     return isinstance(a, np.ndarray) and a.shape == tuple(shape)
 
 
+EPS32 = float(np.finfo(np.float32).eps)
+F4_TOL = 2e-4           # identity tolerance where the function computes in single precision (SVD of float32 data)
+C8_TOL = 1e-5           # cadzow on complex64 spectra: double precision inside, the result rounded to complex64
+
+
+def _lay(a, layout):
+    """The same values, same dtype, as a new array with another memory layout: C / Fortran order, a view with steps of
+    two into a larger buffer whose gaps hold NaN (3 for integers), a view with negative strides (what np.flipud hands
+    out), or read-only (what np.memmap(mode='r') hands out)."""
+    a = np.asarray(a)
+    if layout == "F" and a.ndim == 2:
+        return np.array(a, order="F", copy=True)
+    if layout == "strided":
+        big = np.empty(tuple(2 * n + 1 for n in a.shape), dtype=a.dtype)
+        big.fill(np.nan if a.dtype.kind in "fc" else 3)
+        v = big[tuple(slice(1, None, 2) for _ in a.shape)]
+        v[...] = a
+        return v
+    if layout == "neg":
+        return np.ascontiguousarray(a[::-1])[::-1]
+    out = np.array(a, order="C", copy=True)
+    if layout == "ro":
+        out.flags.writeable = False
+    return out
+
+
+def _vec(v, kind):
+    """A float64 vector handed over as ndarray / list of Python floats / float32 / read-only / non-contiguous view."""
+    if kind == "list":
+        return [float(t) for t in v]
+    if kind == "f4":
+        return np.asarray(v).astype(np.float32)
+    if kind in ("ro", "strided", "neg"):
+        return _lay(v, kind)
+    return np.array(v, copy=True)
+
+
+def _snap(a):
+    """Independent copy of an argument, taken before the first call."""
+    if isinstance(a, np.ndarray):
+        return np.array(a, order="C", copy=True)
+    if isinstance(a, (list, tuple)):
+        return type(a)(_snap(t) for t in a)
+    return a
+
+
+def _same(a, b):
+    """Argument `a` still holds exactly what its snapshot `b` holds (type, dtype, shape, values; NaN equals NaN)."""
+    try:
+        if isinstance(b, np.ndarray):
+            if not (isinstance(a, np.ndarray) and a.shape == b.shape and a.dtype == b.dtype):
+                return False
+            return bool(np.array_equal(a, b, equal_nan=b.dtype.kind in "fc"))
+        if isinstance(b, (list, tuple)):
+            return type(a) is type(b) and len(a) == len(b) and all(_same(s, t) for s, t in zip(a, b))
+        return bool(a == b) or (a != a and b != b)
+    except Exception:  # noqa - whatever the code under test turned the argument into, it is not what was passed
+        return False
+
+
+def _untouched(ctx, kind, **pairs):
+    """pairs: name=(argument object, snapshot). The functions of this property return new arrays; their callers (and the
+    repeated calls of this check) keep using the arguments."""
+    for name, (obj, snap) in pairs.items():
+        ctx.check(_same(obj, snap), kind, lambda: f"argument `{name}` was modified by the call")
+
+
+def _plan(case):
+    """Sequence of calls of one case: 'first'; 'again' = the same argument objects once more (the oracle is computed
+    from copies taken before the first call); 'other' = different arguments of the same shapes and types in between."""
+    rep = case.get("rep", 0)
+    return {0: ("first",), 1: ("first", "again"), 2: ("first", "other", "again")}[rep if rep in (0, 1, 2) else 0]
+
+
+def _k(kind, tag):
+    """Finding kind of an assertion made on a repeated call: same assertion, own bucket (state carried between calls
+    is another root cause than a wrong first answer)."""
+    return kind if tag == "first" else kind + ".again"
+
+
 # ------------------------------------------------------------------------------------------------
 # cadzow
+
+def _coords(v, kind):
+    """Trace coordinates as the caller may hold them: float64 / float32 / integer arrays, a list, read-only or
+    non-contiguous views. All generated coordinates are multiples of 0.5 below 2^13, so every form holds the same numbers
+    (the integer form is used for integral coordinates only)."""
+    if kind == "int":
+        return v.astype(np.int64) if bool(np.all(v == np.round(v))) else np.array(v, copy=True)
+    return _vec(v, "array" if kind == "f8" else kind)
+
 
 def _run_cadzow(case, ctx):
     cz = sut.cadzow()
@@ -368,9 +504,13 @@ def _run_cadzow(case, ctx):
     rows, cols, full = _dims(case["nx"], case["ny"])
     rng = np.random.default_rng(case["seed"])
     nf, scale = case["nf"], case["scale"]
+    wlayout, cdtype, xykind = case.get("wlayout", "C"), case.get("cdtype", "c16"), case.get("xy", "f8")
+    kwform, plan = case.get("kwform", "kw"), _plan(case)
     ctx.label("cadzow", f"cadzow_{case['layout']}", "cadzow_permuted" if case["perm"] is not None else "cadzow_natural",
               f"cadzow_nx{case['nx']}", f"cadzow_niter{case['niter']}",
-              "cadzow_imax" if case["imax"] else "cadzow_allfreq")
+              "cadzow_imax" if case["imax"] else "cadzow_allfreq",
+              "cadzow_wav_" + wlayout, "cadzow_" + cdtype, "cadzow_xy_" + xykind, "cadzow_call_" + kwform,
+              f"cadzow_rep{len(plan) - 1}")
     noisy = None
     if case["mode"] == "random":
         clean = _cnormal(rng, (ntr, nf)) * scale
@@ -391,72 +531,123 @@ def _run_cadzow(case, ctx):
         ctx.nontrivial = True
         ctx.label("cadzow_r<full")
     wav = clean if noisy is None else np.concatenate([clean, noisy], axis=1)
+    # what the function is given: the spectra in the drawn precision and memory layout. The references are taken from it
+    wav = wav.astype(np.complex64 if cdtype == "c8" else np.complex128)
+    wav64 = wav.astype(np.complex128)
+    given = wav64[:, :nf]
+    tol = C8_TOL if cdtype == "c8" else ID_TOL
     imax = case["imax"]
-    win = wav.copy()
-    out = ctx.call("C20.cadzow", cz.denoise, win, x, y, int(r), imax=imax, niter=case["niter"])
-    if out is ctx.CRASH:
-        return
-    if not ctx.check(_is_array(out, wav.shape), "C20.cadzow_shape",
-                     lambda: f"denoise returned {type(out).__name__} of shape {getattr(out, 'shape', None)}, input {wav.shape}"):
-        return
+    win, xin, yin = _lay(wav, wlayout), _coords(x, xykind), _coords(y, xykind)
+    snap = (_snap(win), _snap(xin), _snap(yin))
+    rank = np.int64(r) if case.get("rtype") == "np" else int(r)
+    if kwform == "pos":
+        args, kw = (rank, imax, case["niter"]), {}
+    else:
+        args, kw = (rank,), {"imax": imax, "niter": case["niter"]}
+        if kwform == "omit":            # documented defaults left out
+            if imax is None:
+                del kw["imax"]
+            if case["niter"] == 1:
+                del kw["niter"]
     nkeep = wav.shape[1] if not imax else min(imax, wav.shape[1])
     nid = min(nkeep, nf)
-    ref_scale = _maxabs(clean)
-    err = _maxabs(out[:, :nid] - clean[:, :nid]) / ref_scale
-    ctx.stat("cadzow_identity_relerr", err)
-    kind = "C20.cadzow_identity_full" if case["mode"] == "random" else "C20.cadzow_identity_waves"
-    ctx.check(err <= ID_TOL, kind,
-              lambda: f"grid {case['nx']}x{case['ny']} ({case['layout']}), data rank {k}, requested rank {r} of {full}: "
-                      f"output differs from input by {err:.3g} of max|input| (tolerance {ID_TOL})")
-    if noisy is not None and nkeep == wav.shape[1]:
-        e_out = _fro(out[:, nf:] - ref)
-        e_in = _fro(noise)
-        ratio = e_out / e_in
-        asserted = 4 * k <= full
-        ctx.label("cadzow_noise_asserted" if asserted else "cadzow_noise_measured")
-        ctx.stat("cadzow_noise_ratio_asserted" if asserted else "cadzow_noise_ratio_other", ratio)
-        if asserted:
-            ctx.check(ratio < 1.0, "C20.cadzow_noise",
-                      lambda: f"grid {case['nx']}x{case['ny']}, {k} plane wave(s), rank {r}: error after denoising is "
-                              f"{ratio:.3f} x the added noise (not reduced)")
+    ref_scale = _maxabs(given)
+    sfx = "" if cdtype == "c16" else "_c8"
+
+    def verify(out, tag):
+        if not ctx.check(_is_array(out, wav.shape), _k("C20.cadzow_shape", tag),
+                         lambda: f"denoise returned {type(out).__name__} of shape {getattr(out, 'shape', None)}, input {wav.shape}"):
+            return
+        err = _maxabs(out[:, :nid] - given[:, :nid]) / ref_scale
+        ctx.stat("cadzow_identity_relerr" + sfx, err)
+        kind = "C20.cadzow_identity_full" if case["mode"] == "random" else "C20.cadzow_identity_waves"
+        ctx.check(err <= tol, _k(kind, tag),
+                  lambda: f"grid {case['nx']}x{case['ny']} ({case['layout']}), data rank {k}, requested rank {r} of {full}, "
+                          f"{cdtype} spectra ({wlayout}), call '{tag}': output differs from input by {err:.3g} of "
+                          f"max|input| (tolerance {tol})")
+        if noisy is not None and nkeep == wav.shape[1]:
+            e_out = _fro(out[:, nf:] - ref)
+            e_in = _fro(wav64[:, nf:] - ref)
+            ratio = e_out / e_in
+            asserted = 4 * k <= full
+            if tag == "first":
+                ctx.label("cadzow_noise_asserted" if asserted else "cadzow_noise_measured")
+            ctx.stat("cadzow_noise_ratio_asserted" if asserted else "cadzow_noise_ratio_other", ratio)
+            if asserted:
+                ctx.check(ratio < 1.0, _k("C20.cadzow_noise", tag),
+                          lambda: f"grid {case['nx']}x{case['ny']}, {k} plane wave(s), rank {r}, call '{tag}': error "
+                                  f"after denoising is {ratio:.3f} x the added noise (not reduced)")
+
+    for tag in plan:
+        if tag == "other":
+            # another recording of the same size on the same probe with the traces in reverse order: whatever the
+            # function remembers of it (geometry indices, work arrays) must not leak into the next call
+            wo = _lay((_cnormal(np.random.default_rng(case["seed"] + 1), wav.shape) * scale).astype(wav.dtype), wlayout)
+            if ctx.call("C20.cadzow", cz.denoise, wo, _coords(x[::-1], xykind), _coords(y[::-1], xykind), *args, **kw) is ctx.CRASH:
+                return
+            continue
+        out = ctx.call("C20.cadzow", cz.denoise, win, xin, yin, *args, **kw)
+        if out is ctx.CRASH:
+            return
+        verify(out, tag)
+    # cadzow_np1 hands overlapping row windows of one spectrum array to consecutive calls
+    _untouched(ctx, "C20.cadzow_args_modified", WAV=(win, snap[0]), x=(xin, snap[1]), y=(yin, snap[2]))
 
 
 def _run_traj(case, ctx):
     cz = sut.cadzow()
     ix, iy, x, y = _layout(case)
+    xykind, plan = case.get("xy", "f8"), _plan(case)
+    ctx.label("traj", "traj_permuted" if case["perm"] is not None else "traj_natural", "traj_xy_" + xykind,
+              f"traj_rep{len(plan) - 1}")
+    ctx.nontrivial = case["perm"] is not None
+    xin, yin = _coords(x, xykind), _coords(y, xykind)
+    snap = (_snap(xin), _snap(yin))
+    for tag in plan:
+        if tag == "other":      # the same probe with the traces in reverse order
+            if ctx.call("C20.traj", cz.trajectory, _coords(x[::-1], xykind), _coords(y[::-1], xykind)) is ctx.CRASH:
+                return
+            continue
+        res = ctx.call("C20.traj", cz.trajectory, xin, yin)
+        if res is ctx.CRASH:
+            return
+        # the verification fills T the way denoise does, so a repeated call sees a used T if T is shared
+        if not _verify_traj(case, ctx, res, ix, iy, tag):
+            return
+    _untouched(ctx, "C20.traj_args_modified", x=(xin, snap[0]), y=(yin, snap[1]))
+
+
+def _verify_traj(case, ctx, res, ix, iy, tag):
     nx, ny = case["nx"], case["ny"]
     ntr = ix.size
     rows, cols, full = _dims(nx, ny)
-    ctx.label("traj", "traj_permuted" if case["perm"] is not None else "traj_natural")
-    ctx.nontrivial = case["perm"] is not None
-    res = ctx.call("C20.traj", cz.trajectory, x, y)
-    if res is ctx.CRASH:
-        return
     try:
         T, it, itr, trcount = res
+        Tret = T
         T = np.array(T)
         r_, c_ = np.asarray(it[0]), np.asarray(it[1])
         itr = np.asarray(itr)
         trcount = np.asarray(trcount)
-        ok_struct = T.ndim == 2 and r_.shape == c_.shape == itr.shape and r_.ndim == 1
+        ok_struct = (T.ndim == 2 and r_.shape == c_.shape == itr.shape and r_.ndim == 1
+                     and r_.dtype.kind in "iu" and c_.dtype.kind in "iu" and itr.dtype.kind in "iu")
     except Exception:  # noqa
         ok_struct = False
-    if not ctx.check(ok_struct, "C20.traj_structure", "trajectory did not return (T, (rows, cols), itr, trcount)"):
-        return
-    if not ctx.check(T.size == rows * cols and min(T.shape) == full, "C20.traj_shape",
+    if not ctx.check(ok_struct, _k("C20.traj_structure", tag), "trajectory did not return (T, (rows, cols), itr, trcount)"):
+        return False
+    if not ctx.check(T.size == rows * cols and min(T.shape) == full, _k("C20.traj_shape", tag),
                      lambda: f"T has shape {T.shape}, expected {rows} x {cols} for a {nx} x {ny} grid"):
-        return
+        return False
     inside = np.all((r_ >= 0) & (r_ < T.shape[0]) & (c_ >= 0) & (c_ < T.shape[1])) and np.all((itr >= 0) & (itr < ntr))
-    if not ctx.check(bool(inside), "C20.traj_indices", "indices outside T or outside the traces"):
-        return
+    if not ctx.check(bool(inside), _k("C20.traj_indices", tag), "indices outside T or outside the traces"):
+        return False
     lin = r_.astype(np.int64) * T.shape[1] + c_
-    ctx.check(np.unique(lin).size == lin.size == T.size, "C20.traj_cover",
+    ctx.check(np.unique(lin).size == lin.size == T.size, _k("C20.traj_cover", tag),
               lambda: f"{lin.size} positions ({np.unique(lin).size} distinct) for {T.size} elements of T")
     exp_count = _antidiag_count(nx)[ix] * _antidiag_count(ny)[iy]
-    got_count = np.bincount(itr, minlength=ntr)
-    ctx.check(np.array_equal(got_count, exp_count), "C20.traj_count",
+    got_count = np.bincount(itr.astype(np.int64), minlength=ntr)
+    ctx.check(np.array_equal(got_count, exp_count), _k("C20.traj_count", tag),
               lambda: f"trace multiplicities {got_count[:8]}.. differ from anti-diagonal lengths {exp_count[:8]}..")
-    ctx.check(trcount.shape == (ntr,) and np.array_equal(trcount, got_count), "C20.traj_trcount",
+    ctx.check(trcount.shape == (ntr,) and np.array_equal(trcount, got_count), _k("C20.traj_trcount", tag),
               "trcount is not the number of elements of T that hold each trace")
     # a plane wave must embed into a rank-one matrix (this is what makes T block-Toeplitz/Hankel)
     rng = np.random.default_rng(case["seed"])
@@ -467,8 +658,12 @@ def _run_traj(case, ctx):
     s = np.linalg.svd(T, compute_uv=False)
     s1 = float(s[1] / s[0]) if s.size > 1 else 0.0
     ctx.stat("traj_rank1_s1_over_s0", s1)
-    ctx.check(s1 <= 1e-12, "C20.traj_toeplitz",
+    ctx.check(s1 <= 1e-12, _k("C20.traj_toeplitz", tag),
               lambda: f"a plane wave does not embed into a rank-one trajectory matrix (s1/s0 = {s1:.3g})")
+    # use the returned T as denoise does (T[it] = data[itr]) when it is a writable complex array
+    if isinstance(Tret, np.ndarray) and Tret.flags.writeable and Tret.dtype.kind == "c" and Tret.shape == T.shape:
+        Tret[(r_, c_)] = d[itr]
+    return True
 
 
 # ------------------------------------------------------------------------------------------------
@@ -482,37 +677,55 @@ def _run_derank(case, ctx):
     r = min(full, k + case["r_off"])
     rng = np.random.default_rng(case["seed"])
     gen = _cnormal if case["complex"] else (lambda g, shape: g.standard_normal(shape))
-    clean = (gen(rng, (m, k)) @ gen(rng, (k, n))) * case["scale"]
+    layout, single, plan = case.get("layout", "C"), bool(case.get("single", False)), _plan(case)
+    dt = {(False, False): np.float64, (False, True): np.float32, (True, False): np.complex128,
+          (True, True): np.complex64}[(bool(case["complex"]), single)]
+    wide = np.complex128 if case["complex"] else np.float64
+    tol, tail_tol, sfx = (F4_TOL, 1e-4, "_single") if single else (ID_TOL, 1e-10, "")
+    clean = ((gen(rng, (m, k)) @ gen(rng, (k, n))) * case["scale"]).astype(dt)      # what the function is given
+    clean_w = clean.astype(wide)
     ctx.label("derank", "derank_complex" if case["complex"] else "derank_real",
-              "derank_r==k" if r == k else "derank_r>k", "derank_r==full" if r == full else "derank_r<full")
+              "derank_r==k" if r == k else "derank_r>k", "derank_r==full" if r == full else "derank_r<full",
+              "derank_lay_" + layout, "derank_single" if single else "derank_double", f"derank_rep{len(plan) - 1}")
     if r < full:
         ctx.nontrivial = True
-    tin = clean.copy()
-    out = ctx.call("C20.derank", cz.derank, tin, int(r))
-    if out is ctx.CRASH:
-        return
-    if not ctx.check(_is_array(out, clean.shape), "C20.derank_shape", "derank changed the shape"):
-        return
-    err = _maxabs(out - clean) / _maxabs(clean)
-    ctx.stat("derank_identity_relerr", err)
-    ctx.check(err <= ID_TOL, "C20.derank_identity",
-              lambda: f"{m}x{n} matrix of rank {k}, requested rank {r}: output differs by {err:.3g} of max|input|")
+    rank = (lambda v: np.int64(v)) if case.get("rtype") == "np" else int
+    tin = _lay(clean, layout)
+    snap = _snap(tin)
+    for tag in plan:
+        if tag == "other":
+            if ctx.call("C20.derank", cz.derank, _lay((gen(rng, (m, n)) * case["scale"]).astype(dt), layout), rank(r)) is ctx.CRASH:
+                return
+            continue
+        out = ctx.call("C20.derank", cz.derank, tin, rank(r))
+        if out is ctx.CRASH:
+            return
+        if not ctx.check(_is_array(out, clean.shape), _k("C20.derank_shape", tag), "derank changed the shape"):
+            return
+        err = _maxabs(out - clean_w) / _maxabs(clean_w)
+        ctx.stat("derank_identity_relerr" + sfx, err)
+        ctx.check(err <= tol, _k("C20.derank_identity", tag),
+                  lambda: f"{m}x{n} {np.dtype(dt).name} matrix ({layout}) of rank {k}, requested rank {r}, call '{tag}': "
+                          f"output differs by {err:.3g} of max|input|")
+    _untouched(ctx, "C20.derank_args_modified", T=(tin, snap))
     if k < full:
-        sig = 10.0 ** (case["sig_exp"] / 10.0) * _fro(clean) / np.sqrt(clean.size)
+        sig = 10.0 ** (case["sig_exp"] / 10.0) * _fro(clean_w) / np.sqrt(clean.size)
         e_out = e_in = 0.0
         for irep in range(NOISE_REP):
-            noise = gen(rng, (m, n)) * sig
-            out2 = ctx.call("C20.derank", cz.derank, clean + noise, int(k))
+            noisy = _lay((clean_w + gen(rng, (m, n)) * sig).astype(dt), layout)
+            nsnap = noisy.astype(wide)
+            out2 = ctx.call("C20.derank", cz.derank, noisy, rank(k))
             if out2 is ctx.CRASH or not _is_array(out2, clean.shape):
                 return
             if irep == 0:
-                s = np.linalg.svd(out2, compute_uv=False)
+                s = np.linalg.svd(out2.astype(wide), compute_uv=False)
                 tail = float(s[k] / s[0]) if s[0] > 0 else 0.0
-                ctx.stat("derank_rank_tail", tail)
-                ctx.check(tail <= 1e-10, "C20.derank_rank",
+                ctx.stat("derank_rank_tail" + sfx, tail)
+                ctx.check(tail <= tail_tol, "C20.derank_rank",
                           lambda: f"output of derank(T, {k}) has numerical rank > {k} (s[{k}]/s[0] = {tail:.3g})")
-            e_out += _fro(out2 - clean) ** 2
-            e_in += _fro(noise) ** 2
+                _untouched(ctx, "C20.derank_args_modified", T=(noisy.astype(wide), nsnap))
+            e_out += _fro(out2 - clean_w) ** 2
+            e_in += _fro(nsnap - clean_w) ** 2
         ratio = float(np.sqrt(e_out / e_in))
         asserted = full >= 8 and 4 * k <= full
         ctx.stat("derank_noise_ratio_asserted" if asserted else "derank_noise_ratio_other", ratio)
@@ -527,62 +740,110 @@ def _run_svd(case, ctx):
     nc, ns = case["nc"], case["ns"]
     rng = np.random.default_rng(case["seed"])
     dtype = np.float64 if case["dtype"] == "f8" else np.float32
-    tol = ID_TOL if dtype is np.float64 else 2e-4
+    tol = ID_TOL if dtype is np.float64 else F4_TOL
     sfx = "" if dtype is np.float64 else "_f4"
-    ctx.label("svd", "svd_" + case["dtype"], "svd_" + case["mode"])
+    layout, plan, rank_form = case.get("layout", "C"), _plan(case), case.get("rank_form", "kw")
+    ctx.label("svd", "svd_" + case["dtype"], "svd_" + case["mode"], "svd_lay_" + layout, f"svd_rep{len(plan) - 1}")
+
+    def call(data, rank, form="kw", **kw):
+        if form == "default":           # rank left out: documented default nc // 4 (code: `rank or nc // 4`)
+            return ctx.call("C20.svd", vol.svd_denoise_npx, data, **kw)
+        if form == "pos":
+            return ctx.call("C20.svd", vol.svd_denoise_npx, data, int(rank), **kw)
+        return ctx.call("C20.svd", vol.svd_denoise_npx, data, rank=np.int64(rank) if form == "np" else int(rank), **kw)
+
     if case["mode"] == "full":
         data = (rng.standard_normal((nc, ns)) * case["scale"]).astype(dtype)
         coll = None
+        kw = {}
+        if rank_form == "default":
+            rank_form = "kw"            # the default rank is never the full rank
         if case["ncoll"] > 0:
             ncoll = case["ncoll"]
             lab = np.r_[np.arange(ncoll), rng.integers(0, ncoll, nc - ncoll)]
             lab = lab[rng.permutation(nc)]
             if case["coll_labels"] == "arbitrary":
                 lab = np.array([7, -3, 100, 2])[lab]
-            coll = lab
-            ctx.label(f"svd_coll{ncoll}")
+            ckind = case.get("coll_kind", "i8")
+            coll = {"i4": lambda v: v.astype(np.int32), "f8": lambda v: v.astype(np.float64),
+                    "ro": lambda v: _lay(v, "ro"), "strided": lambda v: _lay(v, "strided")}.get(ckind, lambda v: v)(lab)
+            kw["collection"] = coll
+            ctx.label(f"svd_coll{ncoll}", "svd_coll_" + ckind)
             ctx.nontrivial = ncoll >= 2
         else:
             ctx.label("svd_nocoll")
-        din = data.copy()
-        out = ctx.call("C20.svd", vol.svd_denoise_npx, din, rank=int(nc), collection=coll)
-        if out is ctx.CRASH:
-            return
-        if not ctx.check(_is_array(out, data.shape), "C20.svd_shape", "svd_denoise_npx changed the shape"):
-            return
-        err = _maxabs(out.astype(np.float64) - data) / max(_maxabs(data), 1e-300)
-        ctx.stat("svd_identity_relerr" + sfx, err)
-        ctx.check(err <= tol, "C20.svd_identity_full",
-                  lambda: f"{nc}x{ns} {case['dtype']}, rank=nc, collections={case['ncoll']}: output differs by {err:.3g} "
-                          f"of max|input| (tolerance {tol})")
+            if case.get("layout") is None or case["seed"] % 2:
+                kw["collection"] = None     # explicit None and left out are the same documented default
+        ctx.label("svd_rank_" + rank_form)
+        din = _lay(data, layout)
+        snap, csnap = _snap(din), _snap(coll)
+        for tag in plan:
+            if tag == "other":
+                other = _lay((rng.standard_normal((nc, ns)) * case["scale"]).astype(dtype), layout)
+                if call(other, nc, rank_form, **kw) is ctx.CRASH:
+                    return
+                continue
+            out = call(din, nc, rank_form, **kw)
+            if out is ctx.CRASH:
+                return
+            if not ctx.check(_is_array(out, data.shape), _k("C20.svd_shape", tag), "svd_denoise_npx changed the shape"):
+                return
+            err = _maxabs(out.astype(np.float64) - data) / max(_maxabs(data), 1e-300)
+            ctx.stat("svd_identity_relerr" + sfx, err)
+            ctx.check(err <= tol, _k("C20.svd_identity_full", tag),
+                      lambda: f"{nc}x{ns} {case['dtype']} ({layout}), rank=nc, collections={case['ncoll']}, call '{tag}': "
+                              f"output differs by {err:.3g} of max|input| (tolerance {tol})")
+        _untouched(ctx, "C20.svd_args_modified", datr=(din, snap))
+        if coll is not None:
+            _untouched(ctx, "C20.svd_args_modified", collection=(coll, csnap))
         return
     full = min(nc, ns)
     k = min(case["k"], full)
     r = min(nc, k + case["r_off"])
+    if rank_form == "default":
+        if nc // 4 >= 1:
+            r = nc // 4                 # what the function takes when the rank is left out
+            k = min(k, r)
+        else:
+            rank_form = "kw"
+    ctx.label("svd_rank_" + rank_form)
     clean64 = (rng.standard_normal((nc, k)) @ rng.standard_normal((k, ns))) * case["scale"]
     clean = clean64.astype(dtype)
     ctx.label("svd_r==k" if r == k else "svd_r>k")
     if r < full:
         ctx.nontrivial = True
-    out = ctx.call("C20.svd", vol.svd_denoise_npx, clean.copy(), rank=int(r))
-    if out is ctx.CRASH:
-        return
-    if not ctx.check(_is_array(out, clean.shape), "C20.svd_shape", "svd_denoise_npx changed the shape"):
-        return
-    err = _maxabs(out.astype(np.float64) - clean) / _maxabs(clean)
-    ctx.stat("svd_identity_relerr" + sfx, err)
-    ctx.check(err <= tol, "C20.svd_identity_lowrank",
-              lambda: f"{nc}x{ns} {case['dtype']} of rank {k}, requested rank {r}: output differs by {err:.3g} of max|input|")
+    din = _lay(clean, layout)
+    snap = _snap(din)
+    for tag in plan:
+        if tag == "other":
+            other = _lay((rng.standard_normal((nc, ns)) * case["scale"]).astype(dtype), layout)
+            if call(other, r, rank_form) is ctx.CRASH:
+                return
+            continue
+        out = call(din, r, rank_form)
+        if out is ctx.CRASH:
+            return
+        if not ctx.check(_is_array(out, clean.shape), _k("C20.svd_shape", tag), "svd_denoise_npx changed the shape"):
+            return
+        err = _maxabs(out.astype(np.float64) - clean) / _maxabs(clean)
+        ctx.stat("svd_identity_relerr" + sfx, err)
+        ctx.check(err <= tol, _k("C20.svd_identity_lowrank", tag),
+                  lambda: f"{nc}x{ns} {case['dtype']} ({layout}) of rank {k}, requested rank {r} ({rank_form}), call "
+                          f"'{tag}': output differs by {err:.3g} of max|input|")
+    _untouched(ctx, "C20.svd_args_modified", datr=(din, snap))
     if k < full and case.get("noise", True):
         sig = 10.0 ** (case["sig_exp"] / 10.0) * _fro(clean64) / np.sqrt(clean64.size)
         e_out = e_in = 0.0
-        for _ in range(NOISE_REP):
-            noisy = (clean64 + rng.standard_normal((nc, ns)) * sig).astype(dtype)
+        for irep in range(NOISE_REP):
+            noisy = _lay((clean64 + rng.standard_normal((nc, ns)) * sig).astype(dtype), layout)
+            nsnap = noisy.astype(np.float64)
             out2 = ctx.call("C20.svd", vol.svd_denoise_npx, noisy, rank=int(k))
             if out2 is ctx.CRASH or not _is_array(out2, clean.shape):
                 return
+            if irep == 0:
+                _untouched(ctx, "C20.svd_args_modified", datr=(noisy.astype(np.float64), nsnap))
             e_out += _fro(out2.astype(np.float64) - clean64) ** 2
-            e_in += _fro(noisy.astype(np.float64) - clean64) ** 2
+            e_in += _fro(nsnap - clean64) ** 2
         ratio = float(np.sqrt(e_out / e_in))
         asserted = full >= 8 and 4 * k <= full
         ctx.stat("svd_noise_ratio_asserted" if asserted else "svd_noise_ratio_other", ratio)
@@ -603,46 +864,124 @@ def _const_err(out, c):
 
 def _run_lp(case, ctx):
     sm = sut.smooth()
-    n, pad, fac, c = case["n"], case["pad"], [case["f0"], case["f1"]], case["c"]
-    ctx.label("lp", "lp_n1" if n == 1 else ("lp_small" if n <= 8 else "lp_n>8"), "lp_pad1" if pad == 1.0 else "lp_pad<1")
+    n, pad, c = case["n"], case["pad"], case["c"]
+    layout, dts, plan = case.get("layout", "C"), case.get("dtype", "f8"), _plan(case)
+    fac_form, pad_form = case.get("fac_form", "list"), case.get("pad_form", "kw")
+    dt = np.float32 if dts == "f4" else np.float64
+    if pad_form == "default":
+        pad = 0.2                       # documented default, left out of the call
+    fac = [case["f0"], case["f1"]]
+    fac_in = {"list": list, "tuple": tuple, "array": np.array, "array_ro": lambda v: _lay(np.array(v), "ro")}[fac_form](fac)
+    fsnap = _snap(fac_in)
+    ctx.label("lp", "lp_n1" if n == 1 else ("lp_small" if n <= 8 else "lp_n>8"), "lp_pad1" if pad == 1.0 else "lp_pad<1",
+              "lp_lay_" + layout, "lp_" + dts, "lp_fac_" + fac_form, "lp_pad_" + pad_form, f"lp_rep{len(plan) - 1}")
     ctx.nontrivial = c != 0 and n > 1
-    out = ctx.call("C20.lp", sm.lp, np.full(n, c, dtype=np.float64), fac, pad=pad)
-    if out is ctx.CRASH:
-        return
-    if ctx.check(_is_array(out, (n,)), "C20.lp_length",
-                 lambda: f"lp of {n} samples (pad={pad}) returned shape {getattr(out, 'shape', None)}"):
-        err = _const_err(out, c)
-        ctx.stat("lp_const_relerr", err)
-        ctx.check(err <= 1e-12, "C20.lp_constant",
-                  lambda: f"constant {c!r} (n={n}, pad={pad}, fac={fac}) came back with relative deviation {err:.3g}")
-    sig = np.random.default_rng(case["seed"]).standard_normal(n)
-    out = ctx.call("C20.lp", sm.lp, sig, fac, pad=pad)
-    if out is not ctx.CRASH:
-        ctx.check(_is_array(out, (n,)), "C20.lp_length",
-                  lambda: f"lp of {n} samples (pad={pad}) returned shape {getattr(out, 'shape', None)}")
+
+    def call(ts):
+        if pad_form == "default":
+            return ctx.call("C20.lp", sm.lp, ts, fac_in)
+        if pad_form == "pos":
+            return ctx.call("C20.lp", sm.lp, ts, fac_in, pad)
+        return ctx.call("C20.lp", sm.lp, ts, fac_in, pad=pad)
+
+    cin = _lay(np.full(n, c, dtype=dt), layout)
+    cval = float(cin[0])                # the constant the function is given (rounded to single precision for f4)
+    sig = _lay(np.random.default_rng(case["seed"]).standard_normal(n).astype(dt), layout)
+    snaps = (_snap(cin), _snap(sig))
+    # float32 input: np.pad keeps the dtype, the spectrum is computed in single precision
+    ctol, rtol = (1e-12, 1e-12) if dt is np.float64 else (1e-5, 1e-5)
+    first = None
+    for tag in plan:
+        if tag == "other":
+            if call(_lay((np.random.default_rng(case["seed"] + 1).standard_normal(n) * 3 + 1).astype(dt), layout)) is ctx.CRASH:
+                return
+            continue
+        out = call(cin)
+        if out is ctx.CRASH:
+            return
+        if ctx.check(_is_array(out, (n,)), _k("C20.lp_length", tag),
+                     lambda: f"lp of {n} samples (pad={pad}) returned shape {getattr(out, 'shape', None)}"):
+            err = _const_err(out, cval)
+            ctx.stat("lp_const_relerr" + ("" if dt is np.float64 else "_f4"), err)
+            ctx.check(err <= ctol, _k("C20.lp_constant", tag),
+                      lambda: f"constant {cval!r} ({dts}, {layout}, n={n}, pad={pad}, fac={fac}, call '{tag}') came back "
+                              f"with relative deviation {err:.3g}")
+        out = call(sig)
+        if out is ctx.CRASH:
+            return
+        if not ctx.check(_is_array(out, (n,)), _k("C20.lp_length", tag),
+                         lambda: f"lp of {n} samples (pad={pad}) returned shape {getattr(out, 'shape', None)}"):
+            continue
+        if first is None:
+            first = np.array(out, dtype=np.float64)
+        else:
+            # same argument objects, same answer (the first answer is the only reference for a random signal)
+            dev = _maxabs(np.asarray(out, dtype=np.float64) - first) / max(_maxabs(first), 1e-300)
+            ctx.check(dev <= rtol, "C20.lp_repeat",
+                      lambda: f"lp of the same {n} samples (pad={pad}, fac={fac}) differs by {dev:.3g} between two calls")
+    _untouched(ctx, "C20.lp_args_modified", ts=(cin, snaps[0]), ts_random=(sig, snaps[1]), fac=(fac_in, fsnap))
 
 
 def _run_rolling(case, ctx):
     sm = sut.smooth()
     n, wl, win, c = case["n"], case["wl"], case["window"], case["c"]
+    layout, dts, plan, form = case.get("layout", "C"), case.get("dtype", "f8"), _plan(case), case.get("form", "kw")
+    dt = np.float32 if dts == "f4" else np.float64
+    if form in ("default_window", "default_all"):
+        win = "blackman"                # documented defaults, left out of the call
+    if form == "default_all":
+        wl, n = 11, max(n, 11)
     ctx.label("rolling", "rolling_" + win, "rolling_n==wl" if n == wl else "rolling_n>wl",
-              "rolling_wl<3" if wl < 3 else "rolling_wl>=3", "rolling_list" if case["as_list"] else "rolling_array")
+              "rolling_wl<3" if wl < 3 else "rolling_wl>=3", "rolling_list" if case["as_list"] else "rolling_array",
+              "rolling_lay_" + layout, "rolling_" + dts, "rolling_call_" + form, f"rolling_rep{len(plan) - 1}")
     ctx.nontrivial = c != 0 and wl >= 3
-    x = np.full(n, c, dtype=np.float64)
-    out = ctx.call("C20.rolling", sm.rolling_window, list(x) if case["as_list"] else x, window_len=wl, window=win)
-    if out is ctx.CRASH:
-        return
-    if ctx.check(np.shape(out) == (n,), "C20.rolling_length",
-                 lambda: f"rolling_window({win}, {wl}) of {n} samples returned shape {np.shape(out)}"):
-        err = _const_err(out, c)
-        ctx.stat("rolling_const_relerr", err)
-        ctx.check(err <= 1e-12, "C20.rolling_constant",
-                  lambda: f"constant {c!r} (n={n}, {win} window of {wl}) came back with relative deviation {err:.3g}")
-    sig = np.random.default_rng(case["seed"]).standard_normal(n)
-    out = ctx.call("C20.rolling", sm.rolling_window, sig, window_len=wl, window=win)
-    if out is not ctx.CRASH:
-        ctx.check(np.shape(out) == (n,), "C20.rolling_length",
-                  lambda: f"rolling_window({win}, {wl}) of {n} samples returned shape {np.shape(out)}")
+
+    def call(x):
+        if form == "default_all":
+            return ctx.call("C20.rolling", sm.rolling_window, x)
+        if form == "default_window":
+            return ctx.call("C20.rolling", sm.rolling_window, x, window_len=wl)
+        if form == "pos":
+            return ctx.call("C20.rolling", sm.rolling_window, x, wl, win)
+        return ctx.call("C20.rolling", sm.rolling_window, x, window_len=wl, window=win)
+
+    def hand(v):
+        return [float(t) for t in v] if case["as_list"] else _lay(v.astype(dt), layout)
+
+    xin = hand(np.full(n, c, dtype=np.float64))
+    cval = float(xin[0])
+    sig = hand(np.random.default_rng(case["seed"]).standard_normal(n))
+    snaps = (_snap(xin), _snap(sig))
+    # float32 input: the convolution runs in double precision on the float32 values, the weights sum to one within eps
+    first = None
+    for tag in plan:
+        if tag == "other":
+            if call(hand(np.random.default_rng(case["seed"] + 1).standard_normal(n) * 3 + 1)) is ctx.CRASH:
+                return
+            continue
+        out = call(xin)
+        if out is ctx.CRASH:
+            return
+        if ctx.check(np.shape(out) == (n,), _k("C20.rolling_length", tag),
+                     lambda: f"rolling_window({win}, {wl}) of {n} samples returned shape {np.shape(out)}"):
+            err = _const_err(out, cval)
+            ctx.stat("rolling_const_relerr", err)
+            ctx.check(err <= 1e-12, _k("C20.rolling_constant", tag),
+                      lambda: f"constant {cval!r} ({dts}, n={n}, {win} window of {wl}, call '{tag}') came back with "
+                              f"relative deviation {err:.3g}")
+        out = call(sig)
+        if out is ctx.CRASH:
+            return
+        if not ctx.check(np.shape(out) == (n,), _k("C20.rolling_length", tag),
+                         lambda: f"rolling_window({win}, {wl}) of {n} samples returned shape {np.shape(out)}"):
+            continue
+        if first is None:
+            first = np.array(out, dtype=np.float64)
+        else:
+            dev = _maxabs(np.asarray(out, dtype=np.float64) - first) / max(_maxabs(first), 1e-300)
+            ctx.check(dev <= 1e-12, "C20.rolling_repeat",
+                      lambda: f"rolling_window({win}, {wl}) of the same {n} samples differs by {dev:.3g} between two calls")
+    _untouched(ctx, "C20.rolling_args_modified", x=(xin, snaps[0]), x_random=(sig, snaps[1]))
 
 
 def _abscissae(rng, n, spacing, x0):
@@ -679,47 +1018,82 @@ def _run_savgol(case, ctx):
     sm = sut.smooth()
     w, o, d, n = case["w"], case["o"], case["d"], case["n"]
     rng = np.random.default_rng(case["seed"])
+    kind, form, plan = case.get("kind", "array"), case.get("form", "pos"), _plan(case)
     x = _abscissae(rng, n, case["spacing"], case["x0"])
+    if kind == "f4":
+        # single-precision abscissae: the polynomial is laid through the abscissae the function is given. Abscissae
+        # that collapse in single precision (steps of 0.1 at 1e6) are outside the domain: keep double precision then
+        x32 = x.astype(np.float32).astype(np.float64)
+        if np.all(np.diff(x32) > 0.05):
+            x = x32
+        else:
+            kind = "array"
     coef = rng.standard_normal(d + 1)
     coef[d] = np.sign(coef[d]) * max(abs(coef[d]), 0.1)
     u = (x - x.mean()) / max(np.ptp(x) / 2, 1e-300)
     yv = np.polynomial.polynomial.polyval(u, coef)
+    xin, yin = _vec(x, kind), _vec(yv, kind)
+    if kind == "f4":
+        yv = yin.astype(np.float64)     # rounded ordinates: the oracle allows for that rounding below
+    snap = (_snap(xin), _snap(yin))
     ctx.label("savgol", "savgol_" + case["spacing"], f"savgol_order{o}", "savgol_deg==order" if d == o else "savgol_deg<order",
-              "savgol_interpolating" if o == w - 1 else "savgol_overdetermined")
+              "savgol_interpolating" if o == w - 1 else "savgol_overdetermined", "savgol_in_" + kind, "savgol_call_" + form,
+              f"savgol_rep{len(plan) - 1}")
     eqw = n == w
     if eqw:
         ctx.label("savgol_n==window")
-        out = _eq_window_call(ctx, "C20.savgol_eq_window", sm.non_uniform_savgol, x, yv, w, o)
-        if out is ctx.CRASH or isinstance(out, ValueError):
-            return
-    else:
-        out = ctx.call("C20.savgol", sm.non_uniform_savgol, x, yv, w, o)
-        if out is ctx.CRASH:
-            return
     if case["spacing"] != "uniform":
         ctx.nontrivial = True
-    if not ctx.check(_is_array(out, (n,)), "C20.savgol_length", lambda: f"output shape {np.shape(out)} for {n} samples"):
-        return
-    kappa = _savgol_kappa(x, w, o)
-    tol = 1e-12 + EPS * kappa
-    if tol > 1e-4:
-        ctx.label("savgol_illcond_skipped")
-        ctx.check(bool(np.all(np.isfinite(out))), "C20.savgol_finite", "non-finite output")
-        return
-    scale = _maxabs(yv)
-    dev = np.abs(out - yv) / scale
-    if not np.all(np.isfinite(out)):
-        ctx.fail("C20.savgol_finite", f"non-finite output (window {w}, order {o}, n {n})")
-        return
-    h = w // 2
-    err_in = float(dev[h:n - h].max())
-    err_b = float(max(dev[:h].max(), dev[n - h:].max())) if h else 0.0
-    ctx.stat("savgol_err_over_tol", max(err_in, err_b) / tol)
-    ctx.stat("savgol_abs_relerr", max(err_in, err_b))
-    msg = (lambda where, e: f"polynomial of degree {d} (window {w}, order {o}, n {n}, spacing {case['spacing']}) is off "
-                            f"by {e:.3g} of max|y| {where} (tolerance {tol:.3g}, cond^2 {kappa:.3g})")
-    ctx.check(err_in <= tol, "C20.savgol_interior", lambda: msg("in the interior", err_in))
-    ctx.check(err_b <= tol, "C20.savgol_border", lambda: msg("at the borders", err_b))
+    kappa = None
+
+    def call(xa, ya):
+        kind_ = "C20.savgol_eq_window" if eqw else "C20.savgol"
+        kw = {"expect": (ValueError,)} if eqw else {}
+        if form == "kw":
+            return ctx.call(kind_, sm.non_uniform_savgol, x=xa, y=ya, window=w, polynom=o, **kw)
+        return ctx.call(kind_, sm.non_uniform_savgol, xa, ya, w, o, **kw)
+
+    for tag in plan:
+        if tag == "other":
+            r2 = np.random.default_rng(case["seed"] + 1)
+            res = call(_vec(_abscissae(r2, n, "random", 0.0), kind), _vec(r2.standard_normal(n), kind))
+            if res is ctx.CRASH:
+                return
+            continue
+        out = call(xin, yin)
+        if out is ctx.CRASH or isinstance(out, ValueError):
+            return
+        if not ctx.check(_is_array(out, (n,)), _k("C20.savgol_length", tag), lambda: f"output shape {np.shape(out)} for {n} samples"):
+            return
+        if kappa is None:
+            kappa = _savgol_kappa(x, w, o)
+        tol = 1e-12 + EPS * kappa
+        if kind == "f4":
+            # ordinates rounded to single precision (|dy| <= eps32 max|y|) are amplified by at most ||pinv(A)|| ||A|| =
+            # cond(A) <= kappa; abscissa differences are formed in single precision (relative error eps32 in each entry
+            # of A, solved through the normal equations: kappa). (2 + sqrt(window)) covers the border extrapolation
+            tol += EPS32 * kappa * (2 + np.sqrt(w))
+        if tol > 1e-4:
+            ctx.label("savgol_illcond_skipped")
+            ctx.check(bool(np.all(np.isfinite(out))), _k("C20.savgol_finite", tag), "non-finite output")
+            continue
+        scale = _maxabs(yv)
+        dev = np.abs(out - yv) / scale
+        if not np.all(np.isfinite(out)):
+            ctx.fail(_k("C20.savgol_finite", tag), f"non-finite output (window {w}, order {o}, n {n})")
+            return
+        h = w // 2
+        err_in = float(dev[h:n - h].max())
+        err_b = float(max(dev[:h].max(), dev[n - h:].max())) if h else 0.0
+        ctx.stat("savgol_err_over_tol", max(err_in, err_b) / tol)
+        if kind != "f4":
+            ctx.stat("savgol_abs_relerr", max(err_in, err_b))
+        msg = (lambda where, e: f"polynomial of degree {d} (window {w}, order {o}, n {n}, spacing {case['spacing']}, input "
+                                f"{kind}, call '{tag}') is off by {e:.3g} of max|y| {where} (tolerance {tol:.3g}, "
+                                f"cond^2 {kappa:.3g})")
+        ctx.check(err_in <= tol, _k("C20.savgol_interior", tag), lambda: msg("in the interior", err_in))
+        ctx.check(err_b <= tol, _k("C20.savgol_border", tag), lambda: msg("at the borders", err_b))
+    _untouched(ctx, "C20.savgol_args_modified", x=(xin, snap[0]), y=(yin, snap[1]))
 
 
 def _nan_mask(rng, n_valid, n_nan, mode):
@@ -755,50 +1129,86 @@ def _run_interp(case, ctx):
     nan = _nan_mask(rng, case["n_valid"], case["n_nan"], case["nan_mode"])
     n = nan.size
     nvalid = int((~nan).sum())
+    skind, form, plan = case.get("sig_kind", "array"), case.get("form", "kw"), _plan(case)
     if case["const"] is not None:
         sig = np.full(n, float(case["const"]))
     else:
         sig = np.cumsum(rng.standard_normal(n)) + rng.standard_normal(n) * 0.3
     sig[nan] = np.nan
-    kw = {"window": w, "order": o, "interp_kind": case["kind"]}
+    interp_kind = case["kind"]
+    args, kw = (), {"window": w, "order": o, "interp_kind": interp_kind}
     if case["default_args"] and nvalid > 31:
-        kw, w, o = {}, 31, 3
-    ctx.label("interp", "interp_" + case["nan_mode"], "interp_" + case["kind"],
+        kw, w, o, form = {}, 31, 3, "defaults"
+    elif form == "pos":
+        args, kw = (w, o, interp_kind), {}
+    elif form == "window_only" and w > 3:      # order and interp_kind left at their documented defaults (3, cubic)
+        kw, o, interp_kind = {"window": w}, 3, "cubic"
+    elif form == "no_kind":
+        del kw["interp_kind"]
+        interp_kind = "cubic"
+    else:
+        form = "kw"
+    ctx.label("interp", "interp_" + case["nan_mode"], "interp_" + interp_kind,
               "interp_const" if case["const"] is not None else "interp_random",
-              "interp_defaults" if not kw else "interp_explicit")
+              "interp_defaults" if form == "defaults" else "interp_explicit", "interp_call_" + form, "interp_in_" + skind,
+              f"interp_rep{len(plan) - 1}")
     eqw = nvalid == w
-    sin = sig.copy()
+    sin = _vec(sig, skind)
+    snap = _snap(sin)
+    cval = None
+    if case["const"] is not None:
+        cval = float(np.asarray(sin, dtype=np.float64)[~nan][0])    # the constant as handed over (rounded for float32)
     if eqw:
         ctx.label("interp_nvalid==window")
-        out = _eq_window_call(ctx, "C20.interp_eq_window", sm.smooth_interpolate_savgol, sin, **kw)
-        if out is ctx.CRASH or isinstance(out, ValueError):
-            return
-    else:
-        out = ctx.call("C20.interp", sm.smooth_interpolate_savgol, sin, **kw)
-        if out is ctx.CRASH:
-            return
     if nan.any():
         ctx.nontrivial = True
-    if not ctx.check(_is_array(out, (n,)), "C20.interp_length",
-                     lambda: f"output shape {np.shape(out)} for a signal of {n} samples"):
-        return
-    nbad = int((~np.isfinite(out)).sum())
-    if not ctx.check(nbad == 0, "C20.interp_finite",
-                     lambda: f"{nbad} non-finite output samples (n={n}, {int(nan.sum())} NaN, window {w}, order {o})"):
-        return
-    if case["const"] is not None:
-        c = float(case["const"])
-        kappa = _savgol_kappa(np.flatnonzero(~nan).astype(np.float64), w, o)
-        # interpolation/extrapolation of a constant known within tol amplifies by the Lebesgue constant of the
-        # spline; 1e3 is generous for <= 40 extrapolated samples and irrelevant against wrong coefficients (O(1))
-        tol = 1e3 * (1e-12 + EPS * kappa)
-        if tol > 1e-3:
-            ctx.label("interp_illcond_skipped")
+    first = None
+    for tag in plan:
+        if tag == "other":
+            o_sig = np.cumsum(np.random.default_rng(case["seed"] + 1).standard_normal(n))
+            o_sig[nan] = np.nan
+            res = ctx.call("C20.interp_eq_window" if eqw else "C20.interp", sm.smooth_interpolate_savgol,
+                           _vec(o_sig, skind), *args, expect=(ValueError,) if eqw else (), **kw)
+            if res is ctx.CRASH:
+                return
+            continue
+        if eqw:
+            out = _eq_window_call(ctx, "C20.interp_eq_window", sm.smooth_interpolate_savgol, sin, *args, **kw)
+            if out is ctx.CRASH or isinstance(out, ValueError):
+                return
+        else:
+            out = ctx.call("C20.interp", sm.smooth_interpolate_savgol, sin, *args, **kw)
+            if out is ctx.CRASH:
+                return
+        if not ctx.check(_is_array(out, (n,)), _k("C20.interp_length", tag),
+                         lambda: f"output shape {np.shape(out)} for a signal of {n} samples"):
             return
-        err = _const_err(out, c)
-        ctx.stat("interp_const_err_over_tol", err / tol)
-        ctx.check(err <= tol, "C20.interp_constant",
-                  lambda: f"constant {c!r} with {int(nan.sum())} NaN came back with relative deviation {err:.3g} (tol {tol:.3g})")
+        nbad = int((~np.isfinite(out)).sum()) if out.dtype.kind in "fiu" else n
+        if not ctx.check(nbad == 0, _k("C20.interp_finite", tag),
+                         lambda: f"{nbad} non-finite output samples (n={n}, {int(nan.sum())} NaN, window {w}, order {o})"):
+            return
+        if first is None:
+            first = np.array(out, dtype=np.float64)
+        else:
+            dev = _maxabs(out - first) / max(_maxabs(first), 1e-300)
+            ctx.check(dev <= 1e-12, "C20.interp_repeat",
+                      lambda: f"the same signal ({n} samples, window {w}, order {o}) gives answers that differ by "
+                              f"{dev:.3g} between two calls")
+        if cval is not None:
+            kappa = _savgol_kappa(np.flatnonzero(~nan).astype(np.float64), w, o)
+            # interpolation/extrapolation of a constant known within tol amplifies by the Lebesgue constant of the
+            # spline; 1e3 is generous for <= 40 extrapolated samples and irrelevant against wrong coefficients (O(1))
+            tol = 1e3 * (1e-12 + EPS * kappa)
+            if tol > 1e-3:
+                ctx.label("interp_illcond_skipped")
+                continue
+            err = _const_err(out, cval)
+            ctx.stat("interp_const_err_over_tol", err / tol)
+            ctx.check(err <= tol, _k("C20.interp_constant", tag),
+                      lambda: f"constant {cval!r} with {int(nan.sum())} NaN ({skind}, call '{tag}') came back with relative "
+                              f"deviation {err:.3g} (tol {tol:.3g})")
+    # the function works on copies (np.copy(signal)): the caller keeps the raw signal, NaN included
+    _untouched(ctx, "C20.interp_args_modified", signal=(sin, snap))
 
 
 # ------------------------------------------------------------------------------------------------
@@ -888,57 +1298,88 @@ def _run_venn(case, ctx):
     tmax = max(int(s.max()) for s in samples)
     names = [format(i, f"0{ns}b") for i in range(1, 2 ** ns)]
     fn = stn.spikes_venn2 if ns == 2 else stn.spikes_venn3
-    kw = {"fs": case["fs"]}
+    # spike times / channels as the sorters store them: signed, unsigned or floating point, possibly read-only (memory
+    # mapped) or non-contiguous (a column of a table). All values are integers below 2^31, every dtype holds them exactly
+    sdt, cdt, arr = case.get("sdtype", "i8"), case.get("cdtype", "i8"), case.get("arr", "C")
+    reuse = bool(case.get("reuse", False))
+    npdt = {"i8": np.int64, "u8": np.uint64, "i4": np.int32, "u4": np.uint32, "u2": np.uint16, "f8": np.float64}
+    s_in = tuple(_lay(s.astype(npdt[sdt]), arr) for s in samples)
+    c_in = tuple(_lay(c.astype(npdt[cdt]), arr) for c in channels)
+    snap = (_snap(s_in), _snap(c_in))
+    ctx.label("venn_samples_" + sdt, "venn_channels_" + cdt, "venn_arr_" + arr, "venn_reuse" if reuse else "venn_fresh")
+    kw = {}
+    if case["fs"] != 30000 or case.get("fs_form", "kw") == "kw":
+        kw["fs"] = case["fs"]
+    else:
+        ctx.label("venn_default_fs")
     if case["tbin"] is not None:
         kw["samples_binsize"] = case["tbin"]
     if not case["default_channels"]:
         kw.update(channels_binsize=case["cbin"], num_channels=case["nch"])
 
     def run(chunk):
+        # reuse: every call of the case gets the SAME tuples and arrays (a caller comparing chunk sizes would do that);
+        # otherwise fresh copies, as before
+        S, C = (s_in, c_in) if reuse else (tuple(_lay(s, arr) for s in s_in), tuple(_lay(c, arr) for c in c_in))
         buf = io.StringIO()
         with contextlib.redirect_stdout(buf):
-            return fn(tuple(s.copy() for s in samples), tuple(c.copy() for c in channels), chunk_size=int(chunk), **kw)
+            if chunk is None:           # documented default: 20 s
+                return fn(S, C, **kw)
+            return fn(S, C, chunk_size=int(chunk), **kw)
 
     def well_formed(res, chunk):
-        ok = isinstance(res, dict) and sorted(res) == sorted(names) and all(
-            float(v) == int(v) and int(v) >= 0 for v in res.values())
+        try:
+            ok = isinstance(res, dict) and sorted(res) == sorted(names) and all(
+                float(v) == int(v) and int(v) >= 0 for v in res.values())
+        except Exception:  # noqa - values that are not numbers
+            ok = False
         return ctx.check(ok, "C20.venn_keys", lambda: f"chunk {chunk}: result {res!r} is not a dict over {names}")
 
-    def sums(res, chunk):
+    def sums(res, chunk, nchunks):
         got = [sum(int(v) for k, v in res.items() if k[s] == "1") for s in range(ns)]
         ctx.check(got == counts, "C20.venn_sum",
-                  lambda: f"chunk_size {chunk} ({tmax // chunk + 1} chunks, bin {tb}): regions containing each sorter sum "
-                          f"to {got}, the sorters have {counts} spikes; result {res}")
+                  lambda: f"chunk_size {chunk} ({nchunks} chunks, bin {tb}, samples {sdt}): regions containing each sorter "
+                          f"sum to {got}, the sorters have {counts} spikes; result {res}")
 
     chunk_one = (tmax // tb + 1) * tb          # single chunk, multiple of the bin
     chunks = [("one", chunk_one), ("mult", case["mult_a"] * tb), ("mult", case["mult_b"] * tb), ("any", case["chunk_any"])]
     if tmax >= max(1, case["ntb"] * tb // 150):
         chunks.append(("any", tmax))            # the last spike sits exactly on the boundary of the second chunk
+    if case.get("default_chunk", False):
+        # chunk_size left out: 20 s of samples, more than any generated train, i.e. one chunk whose bins start at sample
+        # 0 like those of every chunk size that is a multiple of the bin
+        chunks.append(("default", None))
+    if "reuse" in case:
+        chunks.append(("one", chunk_one))       # once more after all the others: nothing may be left over from them
     ref = None
     for what, chunk in chunks:
-        nchunks = tmax // chunk + 1
+        nchunks = 1 if chunk is None else tmax // chunk + 1
         if nchunks >= 2:
             ctx.nontrivial = True
             ctx.label("venn_multichunk_" + what)
         if what == "any" and chunk % tb:
             ctx.label("venn_chunk_not_multiple")
+        if what == "default":
+            ctx.label("venn_default_chunk")
         res = ctx.call("C20.venn", run, chunk)
         if res is ctx.CRASH:
             continue
         if not well_formed(res, chunk):
             continue
         res = {k: int(v) for k, v in res.items()}
-        sums(res, chunk)
-        if what in ("one", "mult"):
+        sums(res, chunk, nchunks)
+        if what in ("one", "mult", "default"):
             if ref is None:
                 ref = (chunk, res)
             else:
                 ctx.check(res == ref[1], "C20.venn_chunk_invariance",
-                          lambda: f"chunk sizes {ref[0]} and {chunk} (both multiples of the bin {tb}) give {ref[1]} and {res}")
+                          lambda: f"chunk sizes {ref[0]} and {chunk if chunk else 'default (20 s)'} (both multiples of the "
+                                  f"bin {tb}, or a single chunk) give {ref[1]} and {res}")
             if expected is not None:
                 ctx.check(res == expected, "C20.venn_regions",
                           lambda: f"at most one spike per sorter and bin: constructed regions {expected}, got {res} "
                                   f"(chunk {chunk})")
+    _untouched(ctx, "C20.venn_args_modified", samples_tuple=(s_in, snap[0]), channels_tuple=(c_in, snap[1]))
 
 
 # ------------------------------------------------------------------------------------------------
